@@ -63,6 +63,8 @@ class Ctx:
         self._names = set()
         self.concrete = concrete      # dict name -> python value: run the harness concretely (no proxies)
         self.axioms_used = set()
+        self._uf_apps = {}
+        self.retry_timeout_ms = max(timeout_ms, 10000)
 
     # ---- variables
     def _uname(self, name):
@@ -215,6 +217,8 @@ class Ctx:
             raise Violation(what, self.model(), data)
         c = _b(cond)
         r = self._check(z3.Not(c))
+        if r == z3.unknown:
+            r = self._retry(z3.Not(c))
         if r == z3.unsat:
             self.discharged += 1
             return
@@ -226,6 +230,26 @@ class Ctx:
         m = self.solver.model()
         self.solver.pop()
         raise Violation(what, m, data)
+
+    def _retry(self, extra):
+        """second opinion on an `unknown`: fresh non-incremental solvers specialised for non-linear reals"""
+        t = time.time()
+        res = z3.unknown
+        for mk in (lambda: z3.Tactic('qfnra-nlsat').solver(), lambda: z3.SolverFor('QF_NRA'),
+                   lambda: z3.Then('simplify', 'solve-eqs', 'smt').solver()):
+            try:
+                s2 = mk()
+                s2.set('timeout', self.retry_timeout_ms)
+                s2.add(*self.solver.assertions())
+                s2.add(extra)
+                self.nqueries += 1
+                res = s2.check()
+            except z3.Z3Exception:
+                res = z3.unknown
+            if res != z3.unknown:
+                break
+        self.solver_s += time.time() - t
+        return res
 
     def valid(self, cond):
         """Does cond hold on the whole path?  (no obligation bookkeeping; used by oracles)"""
@@ -731,7 +755,10 @@ class SymReal(_Num):
 
 _R = z3.RealSort()
 UF = {n: z3.Function('uf_' + n, _R, _R) for n in
-      ('exp', 'log', 'log2', 'log10', 'sin', 'cos', 'tan', 'sqrt', 'exp2', 'exp10', 'tanh', 'atan')}
+      ('exp', 'log', 'log2', 'log10', 'sin', 'cos', 'tan', 'sqrt', 'exp2', 'exp10', 'tanh', 'atan', 'cbrt')}
+MONOTONE = {'exp', 'exp2', 'exp10', 'log', 'log2', 'log10', 'sqrt', 'cbrt', 'tanh', 'atan'}
+PI = Fraction(repr(math.pi))
+PI2 = Fraction(repr(math.pi * .5))
 UF2 = {n: z3.Function('uf_' + n, _R, _R, _R) for n in ('pow', 'atan2', 'hypot')}
 
 
@@ -745,26 +772,26 @@ def uf1(name, x):
         return getattr(math, name)(x) if hasattr(math, name) else {'exp2': lambda v: 2.0 ** v,
                                                                      'exp10': lambda v: 10.0 ** v}[name](x)
     ctx = Ctx.cur
-    a = _real(x.e)
-    y = UF[name](a)
+    a = z3.simplify(_real(x.e))
+    y = _uf_app(ctx, name, (a,))
     ax = []
     if name == 'exp':
         ax = [y > 0, z3.Implies(a == 0, y == 1), z3.Implies(a > 0, y > 1), z3.Implies(a < 0, y < 1)]
     elif name == 'exp2':
         ax = [y > 0, z3.Implies(a == 0, y == 1), z3.Implies(a > 0, y > 1), z3.Implies(a < 0, y < 1),
-              UF['log2'](y) == a]
+              _uf_app(ctx, 'log2', (y,)) == a]
     elif name == 'log2':
-        ax = [z3.Implies(a > 0, UF['exp2'](y) == a), z3.Implies(a == 1, y == 0),
+        ax = [z3.Implies(a > 0, _uf_app(ctx, 'exp2', (y,)) == a), z3.Implies(a == 1, y == 0),
               z3.Implies(a > 1, y > 0), z3.Implies(z3.And(a > 0, a < 1), y < 0)]
     elif name == 'log':
-        ax = [z3.Implies(a > 0, UF['exp'](y) == a), z3.Implies(a == 1, y == 0),
+        ax = [z3.Implies(a > 0, _uf_app(ctx, 'exp', (y,)) == a), z3.Implies(a == 1, y == 0),
               z3.Implies(a > 1, y > 0), z3.Implies(z3.And(a > 0, a < 1), y < 0)]
     elif name == 'log10':
-        ax = [z3.Implies(a > 0, UF['exp10'](y) == a), z3.Implies(a == 1, y == 0), z3.Implies(a > 1, y > 0),
+        ax = [z3.Implies(a > 0, _uf_app(ctx, 'exp10', (y,)) == a), z3.Implies(a == 1, y == 0), z3.Implies(a > 1, y > 0),
               z3.Implies(z3.And(a > 0, a < 1), y < 0)]
     elif name == 'exp10':
         ax = [y > 0, z3.Implies(a == 0, y == 1), z3.Implies(a > 0, y > 1), z3.Implies(a < 0, y < 1),
-              UF['log10'](y) == a]
+              _uf_app(ctx, 'log10', (y,)) == a]
     elif name in ('sin', 'cos'):
         ax = [y >= -1, y <= 1]
         if name == 'sin':
@@ -773,6 +800,19 @@ def uf1(name, x):
             ax.append(z3.Implies(a == 0, y == 1))
     elif name == 'sqrt':
         ax = [z3.Implies(a >= 0, z3.And(y >= 0, y * y == a))]
+    elif name == 'cbrt':
+        ax = [y * y * y == a, z3.Implies(a >= 0, y >= 0), z3.Implies(a <= 0, y <= 0)]
+    if name == 'sin':
+        ax += [z3.Implies(a == z3.RealVal(PI2), y == 1), z3.Implies(a == z3.RealVal(PI), y == 0),
+               z3.Implies(z3.And(a >= 0, a <= z3.RealVal(PI)), y >= 0)]
+    if name == 'cos':
+        ax += [z3.Implies(a == z3.RealVal(PI2), y == 0), z3.Implies(a == z3.RealVal(PI), y == -1)]
+    if name in MONOTONE:
+        for (args2, y2) in ctx._uf_apps.get(name, []):
+            a2 = args2[0]
+            if y2 is y:
+                continue
+            ax += [z3.Implies(a <= a2, y <= y2), z3.Implies(a2 <= a, y2 <= y)]
     for c in ax:
         ctx.solver.add(c)
     ctx._model = None
@@ -780,13 +820,31 @@ def uf1(name, x):
     return SymReal(y)
 
 
+def _uf_app(ctx, name, args):
+    """Ackermannised application: one fresh real per distinct argument tuple, congruence axioms against the other
+    applications of the same kernel.  Keeps every query in quantifier-free non-linear real arithmetic (nlsat)."""
+    apps = ctx.__dict__.setdefault('_uf_apps', {}).setdefault(name, [])
+    for (args2, y2) in apps:
+        if all(z3.eq(p, q) for p, q in zip(args, args2)):
+            return y2
+    y = z3.Real(f'{name}!{len(apps)}!{next(_uid)}')
+    for (args2, y2) in apps:
+        ctx.solver.add(z3.Implies(z3.And(*[p == q for p, q in zip(args, args2)]), y == y2))
+    apps.append((args, y))
+    ctx._model = None
+    return y
+
+
 def uf_pow(x, y):
     ctx = Ctx.cur
-    a, b = _real(_t(x)), _real(_t(y))
-    r = UF2['pow'](a, b)
+    a, b = z3.simplify(_real(_t(x))), z3.simplify(_real(_t(y)))
+    r = _uf_app(ctx, 'pow', (a, b))
     ctx.solver.add(z3.Implies(b == 0, r == 1), z3.Implies(b == 1, r == a),
                    z3.Implies(z3.And(a > 0), r > 0), z3.Implies(z3.And(a == 0, b > 0), r == 0),
-                   z3.Implies(a == 1, r == 1))
+                   z3.Implies(a == 1, r == 1),
+                   # a^b lies between 1 and a for 0 <= b <= 1, a > 0
+                   z3.Implies(z3.And(a >= 1, b >= 0, b <= 1), z3.And(r >= 1, r <= a)),
+                   z3.Implies(z3.And(a > 0, a <= 1, b >= 0, b <= 1), z3.And(r <= 1, r >= a)))
     ctx._model = None
     ctx.axioms_used.add('pow')
     return SymReal(r)
@@ -1039,6 +1097,8 @@ class MathShim:
                 return uf1('exp2', y)
             if not is_sym(x) and x == 10.0:
                 return uf1('exp10', y)
+            if not is_sym(y) and abs(y - 1 / 3) < 1e-6:
+                return uf1('cbrt', x)      # the literal 0.3333333 denotes 1/3
             return uf_pow(x, y)
         return math.pow(x, y)
 
